@@ -79,6 +79,9 @@ func c06Profile(tier string) *eng.Profile {
 		// depend on what the calls read: remove from j, remove from k, add to j)
 		up(core.Call{F: "SRem", B: bS, K: "j", Vs: []string{"m"}}, core.Call{F: "SMoveByOneBucket", B: bS, K: "k", K2: "j", V: "m"}),
 		{Kind: "begin-rollback", Calls: []core.Call{{F: "SAdd", B: bS, K: "k", Vs: []string{"r"}}, {F: "SMoveByOneBucket", B: bS, K: "k", K2: "j", V: "m"}}, IgnoreErr: true},
+		// removals that are rolled back, and asked of a read-only transaction
+		{Kind: "begin-rollback", Calls: []core.Call{{F: "SPop", B: bS, K: "k"}, {F: "SRem", B: bS, K: "j", Vs: []string{"m"}}}, IgnoreErr: true},
+		{Kind: "view", Calls: []core.Call{{F: "SPop", B: bS, K: "k"}, {F: "SRem", B: bS, K: "k", Vs: []string{"m"}}}, IgnoreErr: true},
 		{Kind: "reopen"},
 	}
 	var qs []core.Call
